@@ -51,8 +51,13 @@ def make_interp(model: PyModel, notes_in_file=None) -> Interp:
     I = Interp(model, probes=probes, max_states=5000)
     # a registry filled by decorators (metaman.register_function_factory) is a library effect: seed every such list with its decorated functions;
     # a registry written out as a literal (tuple / list of methods) is evaluated like any other constant
+    import ast as _ast
+
+    qmod = model.module_of(QC)
     for key, helpers in model.table_members().items():
-        if key.startswith(QC + ".") and helpers:
+        name = key[len(QC) + 1:] if key.startswith(QC + ".") else None
+        init = qmod.assigns.get(name) if name else None
+        if helpers and isinstance(init, _ast.List) and not init.elts:  # `REGISTRY: list[...] = []`, filled by a decorator
             I._const_cache[key] = tuple(FuncV(q) for q in helpers)
     return I
 
